@@ -32,7 +32,7 @@ func init() {
 		},
 		Quick:    300000,
 		Thorough: 20000000,
-		Require:  []string{"callback.readerIntruderTried", "callback.intruderTried", "ops.overlap", "porcupine.ok", "range.callbackPanicked", "cache.store"},
+		Require:  []string{"callback.readerIntruderTried", "callback.intruderTried", "ops.overlap", "porcupine.ok", "range.callbackPanicked", "cache.store", "map.unhashableKey"},
 		Assume: []string{
 			"interleavings are explored at the granularity of the named yield points (between critical sections), not at instruction level",
 			"porcupine verdict Unknown (timeout) is counted as inconclusive, never reported",
@@ -241,6 +241,30 @@ func c14Run(e *Env, isCache bool) {
 	sites := []string{"task.op", "map.LoadOrStore.gap", "map.Range.item", "cache.LoadOrStore.afterNow", "cache.sweep.beforeDelete", "auto.unlock", "auto.aftercall"}
 	for _, s := range sites {
 		e.EnableParkAll(s)
+	}
+	if !isCache && t.Chance(1, 16) {
+		// a key that cannot be hashed (possible wherever the key type is an interface): the access panics, as it does
+		// on a plain map - and the map stays usable for everybody else
+		e.Probe("map.unhashableKey")
+		mk := coapSync.NewMap[any, int]()
+		op := t.Choose(4)
+		func() {
+			defer func() { _ = recover() }()
+			switch op {
+			case 0:
+				mk.LoadOrStore([]int{1}, 1)
+			case 1:
+				mk.Store([]int{1}, 1)
+			case 2:
+				mk.Load([]int{1})
+			default:
+				mk.LoadAndDelete([]int{1})
+			}
+		}()
+		mk.Store("k", 2)
+		if v, ok := mk.Load("k"); !ok || v != 2 {
+			e.Violate("C14.R1", "map-unusable-after-a-panicking-access", "after an access with an unhashable key, Store/Load of another key gave %v %v", v, ok)
+		}
 	}
 	m := coapSync.NewMap[int, int]()
 	c := cache.NewCache[int, int]()
